@@ -1,5 +1,7 @@
 package larking
 
+import "unicode/utf8"
+
 // Reference matcher for path templates over the RAW request path (DESIGN Appendix C.2),
 // independent of larking's lexer and trie.
 
@@ -23,10 +25,19 @@ func refSplit(path string) ([]string, bool) {
 }
 
 func refAllPathChars(s string) bool {
-	for i := 0; i < len(s); i++ {
-		if s[i] >= 0x80 || !isPath(rune(s[i])) {
+	for i := 0; i < len(s); {
+		if c := s[i]; c < utf8.RuneSelf {
+			if !isPath(rune(c)) {
+				return false
+			}
+			i++
+			continue
+		}
+		r, w := utf8.DecodeRuneInString(s[i:])
+		if r == utf8.RuneError || !isPath(r) {
 			return false
 		}
+		i += w
 	}
 	return true
 }
